@@ -23,7 +23,7 @@ def moduli(bits, rng, n):
         top = rng.getrandbits(64) | 1 << 63
         ms.add(((top << (64 * (ln - 1))) | ((1 << (64 * (ln - 1))) - 1)) & mx)
         ms.add(rng.getrandbits(64 * ln) & mx)
-    while len(ms) < n:
+    while len(ms) < min(n, 1 << min(bits, 20)):
         ms.add(rand_value(rng, bits))
     return sorted(ms)
 
